@@ -235,6 +235,8 @@ class Parser:
         if m.kind == "atom":
             self.order.append(("child", m.ident))
             return Sym("atom", m.ident)
+        if m.kind == "sym":      # explicit letter of the extended alphabet (spec texts only)
+            return Sym(m.info["skind"], m.info["sid"])
         if m.kind == "copen":
             nxt = self.peek()
             if isinstance(nxt, Marker) and nxt.kind == "cclose" and nxt.info.get("of") == m.info.get("of"):
